@@ -2,5 +2,5 @@ CONSTANTS Seeds = {0, 255, 49, 140}
           Alphabet = {0, 1, 128, 255}
           MaxLen = 5
 SPECIFICATION Spec
-INVARIANTS Fast32Same Chunking8 Chunking16 Chunking32 Residue8 SameAsTableForm
+INVARIANTS Fast32Same SparseSame SparseWide Chunking8 Chunking16 Chunking32 Residue8 SameAsTableForm
 CHECK_DEADLOCK FALSE
